@@ -21,12 +21,14 @@ import c14_docs as G  # noqa: E402
 
 LEVEL = "proof"
 SPEC_FUEL = 40
+WALK_FUEL = 60
+IMPL_FUEL = 300
 
 MUTATION_DRILLS = []
 
 
 def build_tools():
-    okm, logm = vlib.coq_make(["CfgC/Spec.vo", "Base/Bytes.vo"])
+    okm, logm = vlib.coq_make(["CfgC/Spec.vo", "CfgC/Impl.vo", "Base/Bytes.vo"])
     if not okm:
         return None, None, logm
     rmodel = vlib.ocaml_build("c14", "Extract_C14.v", os.path.join(vlib.VERIF, "ocaml", "c14", "driver.ml"))
@@ -67,6 +69,7 @@ def make_cases(sets, seed, norders):
         for d in ids:
             hin.append("DIRECT " + d)
             min_.append("SPEC %d %s" % (SPEC_FUEL, d))
+            min_.append("IMPL %d %d %s" % (WALK_FUEL, IMPL_FUEL, d))
         hin.append("END")
         min_.append("END")
         meta.append(orders)
@@ -113,8 +116,15 @@ def parse_model(mout):
     res = {}
     for l in mout.split("\n"):
         f = l.split(" ")
-        if f[0] == "S":
-            res.setdefault(int(f[1]), {"S": {}})["S"][f[2]] = dict(loaded=f[3] == "1", linked=f[4] == "1",
+        if f[0] == "I":
+            res.setdefault(int(f[1]), {"S": {}, "I": {}, "IR": {}, "IL": {}})["I"][f[2]] = dict(
+                loaded=f[3], linked=f[4], oof=f[5][0] == "1", woof=f[5][1] == "1", ub=f[5][2] == "1", tree=f[6])
+        elif f[0] == "IR":
+            res[int(f[1])]["IR"].setdefault(f[2], {})[f[3]] = (f[4], f[5])
+        elif f[0] == "IL":
+            res[int(f[1])]["IL"].setdefault(f[2], {})[f[3]] = (f[4], f[5])
+        elif f[0] == "S":
+            res.setdefault(int(f[1]), {"S": {}, "I": {}, "IR": {}, "IL": {}})["S"][f[2]] = dict(loaded=f[3] == "1", linked=f[4] == "1",
                                                                     err=f[5][0] == "1", cyc=f[5][1] == "1", oof=f[5][2] == "1", tree=f[6])
     return res
 
@@ -155,6 +165,38 @@ def compare_set(si, docs, impl, model, stats):
         if dd and dd[1] not in mems:
             yield ("plugin-chain-differs", "a ConfigCompiler with the plugin classes of core_module.cc in the harness's order gives another tree than the config_builder component",
                    {"set": si, "documents": docs_json(docs), "document": d}, False)
+    # 1b. the heap model of the implemented algorithm agrees with librime on every set (cyclic and erroneous included)
+    for d in docs:
+        mi = (model or {}).get("I", {}).get(d)
+        dd = impl["D"].get(d)
+        if mi is None or dd is None:
+            continue
+        stats["impl_model_runs"] = stats.get("impl_model_runs", 0) + 1
+        if mi["oof"] or mi["woof"] or mi["ub"]:
+            yield ("impl-model-exhausted:%s%s%s" % (int(mi["oof"]), int(mi["woof"]), int(mi["ub"])),
+                   "compile_impl reports fuel exhaustion / undefined behaviour on this set",
+                   {"set": si, "documents": docs_json(docs), "document": d, "flags": mi}, False)
+            continue
+        bad = None
+        if (mi["linked"], mi["tree"]) != dd:
+            bad = ("target", dd, (mi["linked"], mi["tree"]))
+        else:
+            for rid, obs in impl["R"].get(d, {}).items():
+                if model["IR"].get(d, {}).get(rid) != obs:
+                    bad = ("resource " + rid, obs, model["IR"].get(d, {}).get(rid))
+                    break
+            if bad is None:
+                for rid, obs in impl["L"].get(d, {}).items():
+                    if model["IL"].get(d, {}).get(rid) != obs:
+                        bad = ("relinked " + rid, obs, model["IL"].get(d, {}).get(rid))
+                        break
+        if bad:
+            yield ("impl-model-mismatch:" + diff_key(docs, d), "compile_impl (the heap model of the implemented algorithm) and librime disagree on " + bad[0],
+                   {"set": si, "documents": docs_json(docs), "document": d, "where": bad[0],
+                    "librime": [bad[1][0], G.pretty(G.parse_canon(bad[1][1]))] if bad[1] else None,
+                    "compile_impl": [bad[2][0], G.pretty(G.parse_canon(bad[2][1]))] if bad[2] else None}, False)
+        else:
+            stats["impl_model_agree"] = stats.get("impl_model_agree", 0) + 1
     # 2. the property's equality on runs the specification classifies as clear
     for d, obs in by_doc.items():
         sp = spec.get(d)
